@@ -194,7 +194,9 @@ chk('C04', 'model_checking',
     'is replayed through bin/ddsmt and python -m ddsmt; sampled shapes run '
     'end to end against keyword-adversarial commands.',
     'Special identifiers are collected from quoted strings of the sources; '
-    'arity <= 2 (quick) / 3 (thorough), one level of nesting.',
+    'quick: arity <= 1 for every head, arity 2 for a seeded tenth of them; '
+    'thorough: arity <= 2 for every head, arity 3 for a seeded twentieth; '
+    'one level of nesting.',
     'TLA+ generators (usage matrix, shapes) enumerated by TLC and replayed '
     'into the main-process code paths and the real CLI',
     'Main.tla, GenShapes.tla, GenEdits.tla', 'DESIGN.md section 5, C04')
